@@ -392,6 +392,11 @@ def oracle_xml_variants(l, r, n, name, cfg):
         return "XMLFormatter(normalize=%s, %s) raised %r" % (n, ", ".join("%s=%r" % x for x in kw.items()), ex)
     if n & 3 and not markup_free(res):
         return "XMLFormatter(normalize=%s, %s): the output has diff markup: %r" % (n, ", ".join("%s=%r" % x for x in kw.items()), res[:200])
+    # and the converse: with normalisation OFF a re-indentation that changes white space is shown, whatever else is configured
+    from harness import gen
+    if n == 0 and markup_free(res) and gen.canon(parse_plain(l)) != gen.canon(parse_plain(r)):
+        return "XMLFormatter(normalize=WS_NONE, %s): the documents differ in white space, yet the output shows no change" % (
+            ", ".join("%s=%r" % x for x in kw.items()))
     return None
 
 
